@@ -222,9 +222,11 @@ def gen_case(r, i, thorough):
     rq = r.split("q")
     user = {}
     for rn in G["rules"]:
-        if rq.chance(0.25):
-            # `init_parent` (constructor stores the parent it is given) only for rules that are never the root
-            user[rn] = rq.choice(["plain", "eq_all"] if rn == "R0" else ["plain", "eq_all", "init_parent"])
+        if rq.chance(0.4):
+            # `init_parent` (constructor stores the parent it is given) only for rules that are never the root;
+            # falsy instances (len0 / bool_off / len_kids), odd equality (eq_all / eq_none) and unhashable instances
+            user[rn] = rq.weighted([("plain", 2), ("eq_all", 2), ("eq_none", 1), ("unhashable", 1), ("len0", 3), ("bool_off", 3),
+                                    ("len_kids", 2)] + ([] if rn == "R0" else [("init_parent", 2)]))
     types = names + ["Nope", "object"]
     queries = []
     for _ in range(8):
@@ -301,7 +303,7 @@ def enum_cases(maxn):
                     parts.append("}")
                     return " ".join(parts)
                 text = emit(shape, 0, [])
-                cases.append({"grammar": ENUM_GRAMMAR, "text": text, "user": {"M": "eq_all"} if variant == 1 else {},
+                cases.append({"grammar": ENUM_GRAMMAR, "text": text, "user": [{"N": "len_kids"}, {"M": "eq_all", "N": "unhashable"}, {"M": "len0", "N": "bool_off"}][variant],
                               "types": ["N", "M", "T", "Nope", "object"], "queries": ENUM_QUERIES, "time_limit": 120})
     return cases
 
